@@ -134,7 +134,7 @@ CHECKS = {
     },
     "C03": {
         "level": "exploration",
-        "rule": "rapid-generated cases: a block tree with wallet transactions, block headers pre-filled (optionally lagging), filter headers pre-filled to a generated height, one honest peer connected first plus 1-5 peers that are honest / lie consistently with a filter omitting an output script / advertise a hash their filter does not match / advertise a hash and serve no filter / lie unprovably (superset filter) / lie only in filter checkpoints / stay silent, from a generated height; events connect / drop / chain growth / reorganisation / clock advance. At every quiescence: filter tip <= block tip, every entry is dSHA256(served filter hash || previous entry) for the block at that height of the current chain, by-hash lookups agree, no banned peer stays connected, the honest peer is never banned; when every liar is provable the committed entries equal ground truth; at the end every provable liar that put a lie on the wire below the final filter tip is banned. Two units: at-tip worlds (<1000 blocks) and checkpointed worlds (1000-2600 blocks, a quarter of them starting 1-30 blocks below height 1000 with level filter headers and growing across it at the tip). Half of the checkpointed worlds are networks with hard-coded filter-header checkpoints at multiples of 1000 (installed through a verif-tag setter), three quarters of them equal to the true filter header, the rest a value no chain produces: an entry committed at such a height must equal the checkpoint whatever the peers serve. Non-trivial = some liar actually served falsified data; distinct = distinct case JSON Unit bm-sched: the block manager's writeCFHeadersMsg and rollBackToHeight(+header write) run directly on real stores on two goroutines which the harness parks at the client's named yield points (generated: who starts first, where it is held, where the other one is held; also stale batches delivered after a rollback); after every step filter tip <= block tip, every entry belongs to the block at that height of the current chain, no entry of a disconnected block is served, the batch took effect wholly or not at all. Non-trivial there = a step in which the first operation was actually held inside its critical section while the other one ran or blocked.",
+        "rule": "rapid-generated cases: a block tree with wallet transactions, block headers pre-filled (optionally lagging), filter headers pre-filled to a generated height, one honest peer connected first plus 1-5 peers that are honest / lie consistently with a filter omitting an output script / advertise a hash their filter does not match / advertise a hash and serve no filter / lie unprovably (superset filter) / lie only in filter checkpoints / stay silent, from a generated height; events connect / drop / chain growth / reorganisation / clock advance. At every quiescence: filter tip <= block tip, every entry is dSHA256(served filter hash || previous entry) for the block at that height of the current chain, by-hash lookups agree, no banned peer stays connected, the honest peer is never banned; when every liar is provable the committed entries equal ground truth; at the end every provable liar that put a lie on the wire below the final filter tip is banned. Two units: at-tip worlds (<1000 blocks) and checkpointed worlds (1000-2600 blocks, a quarter of them starting 1-30 blocks below height 1000 with level filter headers and growing across it at the tip). Half of the checkpointed worlds are networks with hard-coded filter-header checkpoints at multiples of 1000 (installed through a verif-tag setter), three quarters of them equal to the true filter header, the rest a value no chain produces: an entry committed at such a height must equal the checkpoint whatever the peers serve. A fifth of the checkpointed cases are checkpoint disputes over several rounds with a reorganisation in between (one liar inside the last full checkpoint interval, one a few blocks below the tip, a round that takes virtual time, a heavier branch replacing the block the second liar lied about); peers lying in their filter checkpoints only must be banned as well. Non-trivial = some liar actually served falsified data; distinct = distinct case JSON Unit bm-sched: the block manager's writeCFHeadersMsg and rollBackToHeight(+header write) run directly on real stores on two goroutines which the harness parks at the client's named yield points (generated: who starts first, where it is held, where the other one is held; also stale batches delivered after a rollback); after every step filter tip <= block tip, every entry belongs to the block at that height of the current chain, no entry of a disconnected block is served, the batch took effect wholly or not at all. Non-trivial there = a step in which the first operation was actually held inside its critical section while the other one ran or blocked.",
         "assumptions": NETSIM_ASSUME + [
             "the honest peer is connected before any other peer (dial gate) and never dropped, so it is among the responders of every filter-header query",
             "the matching direction of the hard-coded mainnet/testnet filter-header checkpoints cannot be generated (would need a hash preimage); generated networks have no hard-coded filter checkpoints",
@@ -144,8 +144,8 @@ CHECKS = {
              "quick": {"checks": 25, "shards": 12, "timeout": 600},
              "thorough": {"checks": 400, "shards": 12, "timeout": 3600, "shrink": "60s"}},
             {"name": "netsim-checkpointed", "module": "harness", "pkg": "./checks/c03", "test": "TestC03Big", "tags": "verif",
-             "quick": {"checks": 8, "shards": 4, "timeout": 600, "regress_n": 12},
-             "thorough": {"checks": 120, "shards": 4, "timeout": 3600, "shrink": "60s", "regress_n": 60}},
+             "quick": {"checks": 20, "shards": 8, "timeout": 900, "regress_n": 12},
+             "thorough": {"checks": 250, "shards": 16, "timeout": 5400, "shrink": "60s", "regress_n": 60}},
             {"name": "bm-sched", "module": "harness", "pkg": "./checks/bmsched", "test": "TestC03BM", "tags": "verif",
              "quick": {"checks": 60, "shards": 8, "timeout": 600},
              "thorough": {"checks": 2500, "shards": 16, "timeout": 3600, "shrink": "60s"}},
